@@ -30,6 +30,7 @@ RULE += (' Also: sync() of two related callables (wraps copy, object copy, bound
 RULE += (' Also: what an awaitable resolves to may itself be awaitable payload (delivered, not awaited again).')
 RULE += (' Also: a StopAsyncIteration raised by an awaitable given to await_each surfaces as RuntimeError (caused by it), the stream does not end quietly.')
 RULE += (' Also: sync() of classes (plain, and with instances that have an async def __call__).')
+RULE += (' Also: plain callables presenting themselves as the coroutine function they wrap (functools.wraps / __wrapped__) and returning plain values.')
 ASSUMPTIONS = ["direct specification oracle (no stdlib twin exists for these helpers)"]
 EXHAUSTIVE = {"quick": True, "thorough": True}
 MAX_SHARDS = 8
@@ -79,7 +80,8 @@ def cases(tier, seed, shard, nshards):
                 yield {"kind": "sync_related", "pattern": pattern, "order": order}
     for flav in ("def", "async_def", "partial", "callobj", "lambda_awaitable", "def_raises", "async_raises",
                  "callobj_plain", "notcallable", "awaitable_value", "lambda_awaitable_raises", "callobj_raises",
-                 "awaitable_value_raises", "partial_raises", "class_async_call_instances", "class_plain"):
+                 "awaitable_value_raises", "partial_raises", "class_async_call_instances", "class_plain",
+                 "wraps_blocking", "wraps_blocking_raises", "callobj_wrapped_attr"):
         for susp in (0, 1):
             for exc in (excs if flav.endswith("raises") else ["KeyError"]):
                 idx += 1
@@ -664,7 +666,8 @@ def run_sync(case, stats):
     CTX.reset()
     flav, susp = case["flav"], case["susp"]
     # (where the callable hands out an awaitable, what THAT resolves to may again be awaitable: it is the result)
-    result = Item(1, "res") if flav in ("def", "callobj_plain", "def_raises", "notcallable") else AwaitablePayload("res")
+    result = Item(1, "res") if flav in ("def", "callobj_plain", "def_raises", "notcallable", "wraps_blocking",
+                                      "wraps_blocking_raises", "callobj_wrapped_attr") else AwaitablePayload("res")
     boom = EXC[case.get("exc", "KeyError")]("boom")
     calls = []
 
@@ -710,7 +713,22 @@ def run_sync(case, stats):
         def __call__(self, a, b=2):
             return araise(a, b)
 
-    fn = {"def": d, "async_def": ad, "partial": functools.partial(ad, 1), "callobj": CallObj(),
+    # a plain function that presents itself as a coroutine function it wraps (functools.wraps copies the metadata and
+    # sets __wrapped__) but runs to completion and returns a plain value - e.g. a blocking facade
+    @functools.wraps(ad)
+    def blocking(a, b=2):
+        calls.append((a, b))
+        return result
+
+    @functools.wraps(araise)
+    def blocking_raises(a, b=2):
+        raise boom
+
+    class CallWrappedAttr(CallPlain):
+        __wrapped__ = staticmethod(ad)
+
+    fn = {"wraps_blocking": blocking, "wraps_blocking_raises": blocking_raises, "callobj_wrapped_attr": CallWrappedAttr(),
+          "def": d, "async_def": ad, "partial": functools.partial(ad, 1), "callobj": CallObj(),
           "lambda_awaitable": (lambda a, b=2: ad(a, b)), "def_raises": draise, "async_raises": araise,
           "callobj_plain": CallPlain(), "notcallable": 5, "awaitable_value": (lambda a, b=2: AwaitableValue()),
           "lambda_awaitable_raises": (lambda a, b=2: araise(a, b)), "callobj_raises": CallRaises(),
